@@ -33,6 +33,14 @@ def inputs():
     yield "syn2", docs.make_doc({"a.sol:A": docs.make_contract([b5], [b6, b7, b2], more_run_blocks=([b3, b1],))})
     yield "syn3", docs.make_doc({"a.sol:A": docs.make_contract([b4], [b3, b1]),
                                 "a.sol:B": docs.make_contract([b5], [b2, b7, b6])})
+    # every kind of store / load / hash whose operands come from pushes the log names (a library prologue writes its
+    # address byte with MSTORE8): an edited PUSH id changes what is stored
+    b8 = [B.P(0x73), B.I("DUP2"), B.I("MSTORE8"), B.P(1), B.P(0), B.I("ADD"), B.I("SWAP1"), B.I("POP"), B.I("STOP")]
+    b9 = [B.P(0x20), B.P(0), B.I("KECCAK256"), B.P(3), B.I("SWAP1"), B.I("SSTORE"), B.P(2), B.P(0), B.I("MSTORE8"),
+          B.P(0), B.I("MLOAD"), B.I("SWAP1"), B.I("POP"), B.I("STOP")]
+    b10 = [B.P(4), B.P(5), B.I("MSTORE8"), B.P(6), B.P(5), B.I("MSTORE"), B.P(5), B.I("MLOAD"), B.P(0), B.I("ADD"),
+           B.I("STOP")]
+    yield "syn4", docs.make_doc({"a.sol:A": docs.make_contract([b4], [b8, b9, b10])})
 
 
 CFGS = [("-greedy",), ("-greedy", "-storage"), ("-greedy", "-push0"), ("-greedy", "-size"), ("-greedy", "-partition")]
@@ -139,13 +147,22 @@ def equivalent_docs(doc_in, doc_out):
             return {"kind": "bad-instruction", "block": k, "detail": str(e)}
         if ny > nx:
             return {"kind": "needs-deeper-stack", "block": k, "in": B.to_text(x), "out": B.to_text(y)}
+        only_oog = None
         for st in B.states_for(x):
             d = E.compare(x, y, st)
             if d == "oog":
                 continue
             if d is not None:
                 d["state"] = st.key()
+                if d.get("kind") == "oog-introduced":
+                    # the new block touches memory beyond what can be paid for in this state; keep looking for a
+                    # difference in values, and report this weaker one only if there is no other
+                    only_oog = only_oog or {"kind": "distinguishable-only-by-memory-expansion", "block": k,
+                                            "in": B.to_text(x), "out": B.to_text(y), "diff": d}
+                    continue
                 return {"kind": "distinguishable", "block": k, "in": B.to_text(x), "out": B.to_text(y), "diff": d}
+        if only_oog:
+            return only_oog
     return None
 
 
